@@ -510,7 +510,7 @@ def conn_property(pid, tier, seed, models, drivers, assumptions, design_ref, ext
         sres.append(sr)
         if sr["crashes"]:
             raise V.ToolError("server driver %s in domain %s" % (sr["crashes"][0]["how"], sr["domain"]))
-        bad = {m["hist"]: m for m in sr["mismatches"] if "hist" in m}
+        bad = by_history(sr["mismatches"], SRV_PROJ[pid])
         for hid, evs in hist_events(sr["trace"]):
             evals += 1
             distinct += 1
@@ -613,6 +613,18 @@ SRV_PROJ = {
     "C13": r"^(bytes:|yield:|ready:stall)",
 }
 
+def by_history(mismatches, proj):
+    """history id -> the mismatch to judge: a history may carry two (its first divergence and the ownership
+    judgement at its end); the one inside the property's projection wins, else the first."""
+    out = {}
+    for m in mismatches:
+        if "hist" not in m:
+            continue
+        cur = out.get(m["hist"])
+        if cur is None or (not re.search(proj, cur.get("kind", "?")) and re.search(proj, m.get("kind", "?"))):
+            out[m["hist"]] = m
+    return out
+
 def hist_events(trace_path):
     cur, hid = [], None
     with open(trace_path) as f:
@@ -697,18 +709,32 @@ def srv_conformance(pid, tier, seed, kind, domain, nhist, tag):
     return {"kind": kind, "domain": domain, "trace": trace, "mismatches": mism, "crashes": crashes, "events": events,
             "states": sum(r["states"] for r in res)}
 
-def gen_srv_replay(pid, tier, seed, cfgname):
-    """Specification -> implementation at server level: tlc -simulate on Gen_Srv prints histories of harness
-    steps; `mh srv-replay` executes them on the real server (small build) and Trace_Srv validates the recorded trace."""
+def gen_srv_replay(pid, tier, seed, cfgname, depth=None):
+    """Specification -> implementation at server level: Gen_Srv prints histories of harness steps; `mh srv-replay`
+    executes them on the real server (small build) and Trace_Srv validates the recorded trace.
+    depth=None: random behaviours (tlc -simulate).  depth=N: EVERY history of at most N harness steps of the
+    configuration (TLC model checking with the history as a variable: exhaustive to that depth)."""
     binpath = V.build_harness("small")
     n = 150 if tier == "quick" else 3000
     metadir = os.path.join(V.WORK, "tlc", "gensrv-" + pid)
-    cmd = ["java", "-XX:+UseParallelGC", "-Xmx4g", "-Xss1g", "-cp", V.JAR, "tlc2.TLC", "-workers", "1", "-seed", str(seed),
-           "-simulate", "num=%d" % n, "-depth", "140", "-metadir", metadir, "-noGenerateSpecTE",
-           "-config", os.path.join(V.SPEC, cfgname), os.path.join(V.SPEC, "Gen_Srv.tla")]
+    os.makedirs(os.path.join(V.WORK, "tmp"), exist_ok=True)
     t0 = time.time()
-    pr = V.sh(cmd, timeout=1800, cwd=V.SPEC)
-    out = pr.stdout.decode(errors="replace")
+    if depth is None:
+        cmd = ["java", "-XX:+UseParallelGC", "-Xmx4g", "-Xss1g", "-cp", V.JAR, "tlc2.TLC", "-workers", "1", "-seed", str(seed),
+               "-simulate", "num=%d" % n, "-depth", "140", "-metadir", metadir, "-noGenerateSpecTE",
+               "-config", os.path.join(V.SPEC, cfgname), os.path.join(V.SPEC, "Gen_Srv.tla")]
+        pr = V.sh(cmd, timeout=1800, cwd=V.SPEC)
+        out = pr.stdout.decode(errors="replace")
+    else:
+        cfg = os.path.join(V.WORK, "gensrv-%s-d%d.cfg" % (pid, depth))
+        open(cfg, "w").write(re.sub(r"HistMax = \d+", "HistMax = %d" % depth, open(os.path.join(V.SPEC, cfgname)).read()))
+        outp = os.path.join(V.WORK, "gensrv-%s-d%d.out" % (pid, depth))
+        with open(outp, "w") as fo:
+            pr = V.sh(V.tlc_cmd(os.path.join(V.SPEC, "Gen_Srv.tla"), cfg, metadir, 8, extra=[]), timeout=3600, cwd=V.SPEC, stdout=fo)
+        out = open(outp).read()
+        os.remove(outp)
+        if "Model checking completed. No error has been found." not in out:
+            raise V.ToolError("Gen_Srv (exhaustive, depth %d) did not complete: %s" % (depth, out[-400:]))
     import shutil
     shutil.rmtree(metadir, ignore_errors=True)
     if re.search(r"Invariant \w+ is violated", out):
@@ -723,7 +749,7 @@ def gen_srv_replay(pid, tier, seed, cfgname):
         hists.append(json.loads(json.loads('"' + raw + '"')))
     if not hists:
         raise V.ToolError("Gen_Srv produced no behaviour: " + out[-600:])
-    tag = "%s-gensrv" % pid
+    tag = "%s-gensrv%s" % (pid, "" if depth is None else "-" + cfgname.replace("Gen_Srv_", "").replace(".cfg", ""))
     steps_file = os.path.join(V.WORK, tag + ".ndjson")
     with open(steps_file, "w") as f:
         for i, h in enumerate(hists):
@@ -732,18 +758,55 @@ def gen_srv_replay(pid, tier, seed, cfgname):
     trace = os.path.join(V.WORK, tag + ".trace")
     sockdir = os.path.join(V.WORK, "sock")
     os.makedirs(sockdir, exist_ok=True)
+    # several single-threaded drivers in parallel, each on a slice of the histories
+    lines = open(steps_file).read().split("\n")
+    lines = [l for l in lines if l.strip()]
+    nproc = min(8, max(1, len(lines) // 2000))
+    procs = []
+    for i in range(nproc):
+        part = "%s.p%d.ndjson" % (steps_file, i)
+        open(part, "w").write("\n".join(lines[i::nproc]) + "\n")
+        fo = open("%s.p%d" % (trace, i), "w")
+        procs.append((subprocess.Popen([binpath, "srv-replay", part, sockdir], stdout=fo, stderr=subprocess.PIPE), fo, part))
+    crashes = []
     with open(trace, "w") as fout:
-        pr = subprocess.run([binpath, "srv-replay", steps_file, sockdir], stdout=fout, stderr=subprocess.PIPE, timeout=600)
-    if pr.returncode != 0:
-        raise V.ToolError("srv-replay failed: " + pr.stderr.decode()[-400:])
-    res = V.validate_trace("Trace_Srv.tla", srv_cfg("small"), trace, tag, timeout_s=1500, boundary='"e":"reset"')
+        for i, (p_, fo, part) in enumerate(procs):
+            hung = False
+            try:
+                _, err = p_.communicate(timeout=300 if tier == "quick" else 1800)
+            except subprocess.TimeoutExpired:
+                p_.kill()
+                p_.communicate()
+                hung = True
+            fo.close()
+            tp = "%s.p%d" % (trace, i)
+            # complete histories go to the trace; an unfinished tail is the culprit of a hang / crash
+            buf = []
+            for line in open(tp):
+                if '"e":"reset"' in line:
+                    buf = []
+                buf.append(line)
+                if '"e":"endhist"' in line:
+                    fout.writelines(buf)
+                    buf = []
+            if hung or p_.returncode != 0:
+                steps = []
+                for line in buf:
+                    try:
+                        steps.append(json.loads(line))
+                    except Exception:
+                        pass
+                crashes.append({"how": "hang" if hung else "exit %s" % p_.returncode, "steps": steps})
+            os.remove(tp)
+            os.remove(part)
+    res = V.validate_trace("Trace_Srv.tla", srv_cfg("small"), trace, tag, timeout_s=3000, boundary='"e":"reset"')
     errors = [r for r in res if r["error"]]
     if errors:
         raise V.ToolError("trace validation failed to run: %s (%s)" % (errors[0]["error"], errors[0]["shard"]))
     mism = [m for r in res for m in r["mismatches"]]
     events = sum(r["consumed"] for r in res)
     V.log("%s: %d TLC-generated histories replayed on the real server, %d events validated (%.0fs), %d divergent" % (tag, len(hists), events, time.time() - t0, len(mism)))
-    return {"kind": "small", "domain": "tlc-generated:" + cfgname, "trace": trace, "mismatches": mism, "crashes": [], "events": events,
+    return {"kind": "small", "domain": "tlc-generated:" + cfgname + ("" if depth is None else ":every-history-to-depth-%d" % depth), "trace": trace, "mismatches": mism, "crashes": crashes, "events": events,
             "states": sum(r["states"] for r in res)}
 
 def nontrivial_srv(pid, evs):
@@ -794,6 +857,9 @@ def srv_property(pid, tier, seed, models, drivers, assumptions, design_ref, proo
     for i, (kind, domain, nq, nt) in enumerate(drivers):
         if kind == "gen":
             cres.append(gen_srv_replay(pid, tier, seed, domain))
+        elif kind == "genx":
+            if (nq if tier == "quick" else nt) > 0:
+                cres.append(gen_srv_replay(pid, tier, seed, domain, depth=nq if tier == "quick" else nt))
         else:
             cres.append(srv_conformance(pid, tier, seed, kind, domain, nq if tier == "quick" else nt, "%s-%s-%d" % (pid, kind, i)))
     selftest = None
@@ -802,7 +868,7 @@ def srv_property(pid, tier, seed, models, drivers, assumptions, design_ref, proo
         selftest = binding_selftest("srv", "Trace_Srv.tla", srv_cfg(c0["kind"]), c0["trace"], pid, '"e":"reset"')
     evals, distinct, samples, total_div = 0, set(), [], 0
     for cr in cres:
-        bad = {m["hist"]: m for m in cr["mismatches"] if "hist" in m}
+        bad = by_history(cr["mismatches"], SRV_PROJ[pid])
         for hid, evs in hist_events(cr["trace"]):
             evals += 1
             h = hashlib.sha256(json.dumps([[e.get(k) for k in ("e", "c", "bytes", "tag", "state")] for e in evs]).encode()).hexdigest()
@@ -887,11 +953,11 @@ SRV_ASSUME = [
 ]
 
 TABLE.update({
-    "C07": lambda tier, seed: srv_property("C07", tier, seed, ["srv_quick", "srv_race", "srv_capq"] + (["srv_cap"] if tier == "thorough" else []), [("full", "C07", 300, 3000), ("small", "C07", 300, 3000), ("full", "C07pipe", 200, 2000), ("gen", "Gen_Srv_rogue.cfg", 0, 0)], SRV_ASSUME, "DESIGN.md 6 C07", proofs=ABS_PROOF),
-    "C09": lambda tier, seed: srv_property("C09", tier, seed, ["srv_quick", "srv_race", "srv_capq"] + (["srv_cap", "srv_livew"] if tier == "thorough" else []), [("full", "C09", 300, 3000), ("small", "C09", 200, 2000), ("small", "C10", 200, 2000), ("full", "C09slow", 40, 400), ("gen", "Gen_Srv_rogue.cfg", 0, 0)], SRV_ASSUME, "DESIGN.md 6 C09"),
+    "C07": lambda tier, seed: srv_property("C07", tier, seed, ["srv_quick", "srv_race", "srv_capq"] + (["srv_cap"] if tier == "thorough" else []), [("full", "C07", 300, 3000), ("small", "C07", 300, 3000), ("full", "C07pipe", 200, 2000), ("gen", "Gen_Srv_rogue.cfg", 0, 0), ("genx", "Gen_Srv_exh.cfg", 9, 12), ("genx", "Gen_Srv_exh3.cfg", 0, 10), ("genx", "Gen_Srv_exh11.cfg", 0, 13)], SRV_ASSUME, "DESIGN.md 6 C07", proofs=ABS_PROOF),
+    "C09": lambda tier, seed: srv_property("C09", tier, seed, ["srv_quick", "srv_race", "srv_capq"] + (["srv_cap", "srv_livew"] if tier == "thorough" else []), [("full", "C09", 300, 3000), ("small", "C09", 200, 2000), ("small", "C10", 200, 2000), ("full", "C09slow", 40, 400), ("gen", "Gen_Srv_rogue.cfg", 0, 0), ("genx", "Gen_Srv_exh.cfg", 0, 12), ("genx", "Gen_Srv_exh8.cfg", 0, 14)], SRV_ASSUME, "DESIGN.md 6 C09"),
     "C10": lambda tier, seed: srv_property("C10", tier, seed, ["srv_capq"] + (["srv_cap"] if tier == "thorough" else []), [("small", "C10", 300, 3000), ("full", "C10", 150, 1500)], SRV_ASSUME, "DESIGN.md 6 C10", proofs=ABS_PROOF),
-    "C18": lambda tier, seed: srv_property("C18", tier, seed, ["srv_kill"], [("full", "C18", 300, 3000), ("small", "C18", 200, 2000)], SRV_ASSUME, "DESIGN.md 6 C18"),
-    "C08": lambda tier, seed: srv_property("C08", tier, seed, ["srv_quick", "srv_progs", "srv_live"], [("full", "C08", 300, 3000), ("small", "C08", 200, 2000), ("full", "C08big", 24, 400), ("gen", "Gen_Srv_good.cfg", 0, 0)], SRV_ASSUME, "DESIGN.md 6 C08"),
+    "C18": lambda tier, seed: srv_property("C18", tier, seed, ["srv_kill"], [("full", "C18", 300, 3000), ("small", "C18", 200, 2000), ("genx", "Gen_Srv_exhkill.cfg", 10, 13)], SRV_ASSUME, "DESIGN.md 6 C18"),
+    "C08": lambda tier, seed: srv_property("C08", tier, seed, ["srv_quick", "srv_progs", "srv_live"], [("full", "C08", 300, 3000), ("small", "C08", 200, 2000), ("full", "C08big", 24, 400), ("gen", "Gen_Srv_good.cfg", 0, 0), ("genx", "Gen_Srv_exhgood.cfg", 11, 13)], SRV_ASSUME, "DESIGN.md 6 C08"),
 })
 
 # ---------------------------------------------------------------------------
